@@ -290,7 +290,7 @@ func (p *H2Peer) AwaitResponse(sid uint32, stop <-chan struct{}) Exchange {
 		if resp.Ended || resp.Reset {
 			ex := Exchange{Header: fieldsToHeader(resp.Header), Body: resp.Body}
 			fmt.Sscanf(resp.Status, "%d", &ex.Status)
-			if resp.Reset {
+			if resp.Reset && !resp.Ended {
 				ex.Err = fmt.Sprintf("stream reset: %v", resp.ResetCode)
 			}
 			return ex
